@@ -49,16 +49,25 @@ Definition build1 (revert : bool) (ch : changes) (d : fdiff) : option changes :=
            else None
        end.
 
+(* the resolution part of a v2 diff (the inner type switch; [None] = not resolved) *)
+Definition build2_res (ch : changes) (d : fdiff2) : changes :=
+  match gd_res d with
+  | Some KRenewal => add_ren2 ch (gd_id d)
+  | Some (KExpiration true) | Some KProof => add_succ2 ch (gd_id d)
+  | Some (KExpiration false) => add_fail2 ch (gd_id d)
+  | None => ch
+  end.
+
+(* with fix d7434ff (a contract revised and resolved in the same block): [case rev != nil] records
+   the revision and falls through into the resolution switch, whose [case nil] does nothing *)
 Definition build2 (revert : bool) (ch : changes) (d : fdiff2) : option changes :=
   if negb (gd_relevant d) then Some ch
   else if gd_created d then Some (add_conf2 ch (gd_id d, gd_cur d))
   else match gd_rev d with
-       | Some r => Some (add_rev2 ch (gd_id d, if revert then gd_cur d else r))
+       | Some r => Some (build2_res (add_rev2 ch (gd_id d, if revert then gd_cur d else r)) d)
        | None =>
            match gd_res d with
-           | Some KRenewal => Some (add_ren2 ch (gd_id d))
-           | Some (KExpiration true) | Some KProof => Some (add_succ2 ch (gd_id d))
-           | Some (KExpiration false) => Some (add_fail2 ch (gd_id d))
+           | Some _ => Some (build2_res ch d)
            | None => None
            end
        end.
